@@ -49,7 +49,9 @@ for fam in (t.EmberStatus, t.EzspStatus):
     for c in (0x00, 0x01, 0x03, 0x18, 0x72, 0x90, 0x91, 0x93, 0xA1, 0xB1, 0xB6, 0x13, 0xFE):
         st = fam(c)
         checks.append((st, int(t.SL_STATUS_MAP.get((type(st), st), t.sl_Status.FAIL))))
-named = t.sl_Status.from_ember_status.__func__.__code__.co_filename
+import inspect
+# the file the conversion lives in (however the method is wrapped)
+named = inspect.getsourcefile(t.sl_Status)
 
 
 def scenario(k):
@@ -161,7 +163,11 @@ def threaded_first_use(ctx, trials):
 def run(ctx, big=False):
     logging.disable(logging.CRITICAL)
     for b in threaded_first_use(ctx, ctx.n(1, 3))[:1]:
-        ctx.violation(f"with several threads converting statuses right from process start, {b[0]}({b[1]:#x}) was converted to {b[2]!r}, the table says {b[3]:#x} "
+        if b[0] == "harness":
+            # the stepping script itself failed on this tree: not a verdict about the code; the single-threaded cases below go on
+            ctx.corr_diff("the two-thread stepping script could not run against this tree", {"threads": True}, str(b[2])[:300], "-")
+            continue
+        ctx.violation(f"with several threads converting statuses right from process start, {b[0]}({int(b[1]):#x}) was converted to {b[2]!r}, the table says {b[3]!r} "
                       f"(second thread running while the first is at stop {b[4]} of its first conversion)", {"kind": "threads"}, {"threads": True})
     cs = cases(ctx)
     impl = [_impl(f, c) for f, c in cs]
